@@ -354,3 +354,25 @@ def wf_unix(rng):
     name, eol = wf_name(rng, True), rng.choice(EOLS)
     line = t + m + " " + links + " " + owner + " " + group + " " + size + " " + date + " " + name + eol
     return (t, m, links, owner, group, size, date, name), line
+
+
+def wf_win(rng):
+    """(date, time, ap, col, name), line -- hypotheses of C19_windows_dir_exact / C19_windows_file_exact"""
+    if rng.random() < 0.75:
+        d = f"{rng.randint(1, 12):02d}/{rng.randint(1, 28):02d}/{rng.randint(1970, 2037)}"
+        tm = f"{rng.randint(1, 12):02d}:{rng.randint(0, 59):02d}"
+    else:
+        d, tm = _tok(rng, "0123456789/-x", 1, 10), _tok(rng, "0123456789:x", 1, 5)
+    ap = rng.choice("AP") if rng.random() < 0.9 else rng.choice("xp0")
+    if rng.random() < 0.4:
+        col = "<DIR>"
+    else:
+        n = str(rng.randrange(0, 10**9))
+        col = rng.choice([n, f"{int(n):,}", "0" + n, "," + n, n + ","])
+    while True:
+        name = rng.choice(NAMES) if rng.random() < 0.3 else _tok(rng, NAME_ALPHA + "\t", 1, 12)
+        if name and not name[0].isspace() and name.rstrip("\r\n") == name and name not in (".", ".."):
+            break
+    eol = rng.choice(["\r\n", "\n", "", "\r", "\n\r\n"])
+    line = d + " " + tm + " " + ap + "M" + " " * rng.randint(1, 6) + col + " " * rng.randint(1, 10) + name + eol
+    return (d, tm, ap, col, name), line
